@@ -70,4 +70,12 @@ def cmdKinds : List Cmd :=
   [.erase 0 0 0, .load 0 [] 0, .execute 0, .call 0, .progFuses 0 [], .progIfr 0 [], .loadCmac 0 [] 0, .copy 0 0 0 0 0,
    .loadHashLocking 0 [] 0, .loadKeyBlob 0 [] 0, .configureMemory 0 0, .fillMemory 0 0 0, .fwVersionCheck 0 0, .reset]
 
+/-- the commands whose constructor + `export()` the generator EXECUTES (`Sb31Consts.cmdSamples`), in class-name order -/
+def sampleCmds : List Cmd :=
+  [.call 0xA1A2A3A4, .configureMemory 0xA1A2A3A4 0xB1B2B3B4, .copy 0xA1A2A3A4 0xB1B2B3B4 0xC1C2C3C4 0xD1D2D3D4 0xE1E2E3E4,
+   .erase 0xA1A2A3A4 0xB1B2B3B4 0xC1C2C3C4, .execute 0xA1A2A3A4, .fillMemory 0xA1A2A3A4 0xB1B2B3B4 0xC1C2C3C4,
+   .fwVersionCheck 0xA1A2A3A4 5, .load 0xA1A2A3A4 [1, 2, 3, 4, 5] 0xC1C2C3C4, .loadCmac 0xA1A2A3A4 [1, 2, 3, 4, 5] 0xC1C2C3C4,
+   .loadHashLocking 0xA1A2A3A4 [1, 2, 3, 4, 5] 0xC1C2C3C4, .loadKeyBlob 0xA1A2 [1, 2, 3, 4, 5] 0xB1B2,
+   .progFuses 0xA1A2A3A4 [1, 2, 3, 4, 5, 6, 7, 8], .progIfr 0xA1A2A3A4 [1, 2, 3, 4, 5], .reset]
+
 end SpsdkVerif.Sb31
